@@ -18,7 +18,7 @@ mcMsgKinds == { [key |-> "", attrs |-> <<>>] }
 mcPrefixPairs == {}
 mcTickDs == {10, 50}
 mcProjOfName == <<>>
-mcOps == {"Publish", "Pull", "TickNear", "Tick", "Nack", "ModAck", "Ack"}
+mcOps == {"Publish", "Pull", "RacePull", "TickNear", "Tick", "Nack", "ModAck", "Ack"}
 W0 == [op \in mcOps |-> 1]
-mcWeights == [W0 EXCEPT !["Publish"] = 2, !["Pull"] = 10, !["TickNear"] = 12, !["Nack"] = 2, !["ModAck"] = 2]
+mcWeights == [W0 EXCEPT !["Publish"] = 2, !["Pull"] = 10, !["RacePull"] = 4, !["TickNear"] = 12, !["Nack"] = 2, !["ModAck"] = 2]
 =============================================================================
